@@ -601,9 +601,9 @@ theorem tilecover_total (ops : TileCover.Ops α) (frac : Pt α → Pt α) (zoom 
 /-- (b) Each kind goes to its own cover function, starting from an empty set (an empty ring has an
     empty cover; a ring is the one-ring polygon; an empty bound has an empty cover). -/
 theorem tilecover_agrees_typed (ops : TileCover.Ops α) (frac : Pt α → Pt α) (zoom fuel : Nat) :
-    (∀ p, TileCover.cover ops frac zoom fuel (.point p) = .ok [TileCover.tileAt ops (frac p) zoom]) ∧
+    (∀ p, TileCover.cover ops frac zoom fuel (.point p) = .ok [TileCover.tileAt ops p.x (frac p) zoom]) ∧
     (∀ ps, TileCover.cover ops frac zoom fuel (.multiPoint ps) =
-      .ok (ps.map fun p => TileCover.tileAt ops (frac p) zoom)) ∧
+      .ok (ps.map fun p => TileCover.tileAt ops p.x (frac p) zoom)) ∧
     (∀ ps, TileCover.cover ops frac zoom fuel (.lineString ps) =
       (TileCover.line ops zoom fuel [] (ps.map frac) none).map (·.1)) ∧
     (∀ ls, TileCover.cover ops frac zoom fuel (.multiLineString ls) =
@@ -616,7 +616,7 @@ theorem tilecover_agrees_typed (ops : TileCover.Ops α) (frac : Pt α → Pt α)
       TileCover.multiPolygon ops zoom fuel [] (ps.map (·.map (·.map frac)))) ∧
     (∀ a b, TileCover.cover ops frac zoom fuel (.bound a b) =
       if b.x < a.x ∨ b.y < a.y then .ok []
-      else .ok (TileCover.coverRect (TileCover.tileAt ops (frac a) zoom) (TileCover.tileAt ops (frac b) zoom) zoom)) := by
+      else .ok (TileCover.coverRect (TileCover.tileAt ops a.x (frac a) zoom) (TileCover.tileAt ops b.x (frac b) zoom) zoom)) := by
   refine ⟨?_, ?_, ?_, ?_, ?_, ?_, ?_, ?_⟩ <;> intros <;> rw [TileCover.cover]
 
 /-- (c) The cover of a collection whose members all have covers is the UNION of the members' covers … -/
